@@ -94,7 +94,11 @@ def cliOp (args impl : List String) : Option (String × String) := do
         else if n "maxflight" > flightBound p.conc then "FAIL more-iterations-in-flight-than-the-concurrency-flag"
         else if p.maxIt > 0 ∧ n "started" > p.maxIt then "FAIL more-iterations-than-the-max-iterations-flag"
         else if (get "expectlimit") = some "1" ∧ n "started" ≠ p.maxIt then "FAIL max-iterations-flag-not-reached"
-        else if (get "expectfull") = some "1" ∧ n "maxflight" ≠ p.conc then "FAIL concurrency-flag-not-all-workers-used"
+        -- (judged only when the command was not starved: one that took much longer than its run — slow file I/O, no CPU —
+        -- may have found its duration over before its workers were scheduled at all)
+        else if (get "expectfull") = some "1" ∧ n "maxflight" ≠ p.conc ∧
+            n "ret" ≤ p.maxDur / 1000000 + ((get "bodyms").bind String.toInt?).getD 0 + 250 then
+          "FAIL concurrency-flag-not-all-workers-used"
         else if (n "err" = 1) ≠ specErr then "FAIL exit-status-differs-from-documented-verdict"
         else if wantErr ≠ specErr then "FAIL model-exit-differs-from-spec"
         else if ¬jsonLog ∧ (out "banner" = "fail") ≠ specErr then "FAIL banner-differs-from-verdict"
